@@ -6,6 +6,7 @@ import sys
 from contextlib import contextmanager
 from typing import (
     TYPE_CHECKING,
+    Any,
     Callable,
     DefaultDict,
     Dict,
@@ -14,6 +15,7 @@ from typing import (
     List,
     Optional,
     Set,
+    Tuple,
     Union,
 )
 
@@ -37,12 +39,24 @@ else:
 class _SaveParentsVisitor(ast.NodeVisitor):
     has_parent = f"{PYCCOLO_BUILTIN_PREFIX}_has_parent_Xix54321"
 
+    def __init__(self) -> None:
+        # the caller's tree gets its parent links back once it has been pickled
+        self._saved: List[Tuple[ast.AST, Any]] = []
+
     def generic_visit(self, node: ast.AST) -> None:
         if hasattr(node, "parent"):
+            self._saved.append((node, node.parent))  # type: ignore
             node.parent = self.has_parent  # type: ignore
         super().generic_visit(node)
 
-    def reinject(self, tree: ast.AST) -> None:
+    def restore(self) -> None:
+        for node, parent in self._saved:
+            node.parent = parent  # type: ignore
+
+    def reinject(self, tree: ast.AST, orig_tree: ast.AST) -> None:
+        if getattr(tree, "parent", None) == self.has_parent:
+            # the root is nobody's child in the copy: it keeps the parent the original root has
+            tree.parent = getattr(orig_tree, "parent", None)  # type: ignore
         for node in ast.walk(tree):
             for child in ast.iter_child_nodes(node):
                 if getattr(child, "parent", None) == self.has_parent:
@@ -58,8 +72,11 @@ def _save_parents(node: ast.AST) -> Generator[_SaveParentsVisitor, None, None]:
 
 def copy_ast(node: ast.AST) -> ast.AST:
     with _save_parents(node) as parents:
-        node_copy = pickle.loads(pickle.dumps(node))
-    parents.reinject(node_copy)
+        try:
+            node_copy = pickle.loads(pickle.dumps(node))
+        finally:
+            parents.restore()
+    parents.reinject(node_copy, node)
     return node_copy
 
 
